@@ -114,6 +114,17 @@ func (dsc *dataStoreCommand) unlockAndUnblock(uk *unblockKey) {
 	}
 }
 
+// wakes the next client waiting for the named list if it holds elements
+func (dsc *dataStoreCommand) wakeListWaiter(keyName string) {
+	dsc.lock()
+	defer dsc.unlock()
+
+	list, err := dsc.getListUnlocked(keyName)
+	if err == nil && list != nil && list.count > 0 {
+		dsc.ds.unblockListUnlocked(keyName, 1)
+	}
+}
+
 func (dsc *dataStoreCommand) acquireExclusive() {
 	// give ownership to the caller
 	simBeforeLock(&dsc.ds.mu, "dsc.ds.mu")
